@@ -288,6 +288,12 @@ func (c *cursorAcker) Ack(offset int64) {
 	c.quorumTracker.Lock()
 	defer c.quorumTracker.Unlock()
 
+	if c.quorumTracker.closed {
+		// The waiting requests are being failed by Close(): an ack that arrives now must not
+		// complete the ones that come after them
+		return
+	}
+
 	c.ack(offset)
 }
 
